@@ -229,7 +229,7 @@ REG.syntactic_check("syn#media_input_is_the_class_own_declaration", P, check_med
 
 ASSUMES = ["A-PY", "A-INST", "A-DJ"]
 NOT_COVERED = [
-    "_get_comp_cls_media's worklist (Media merge over the selected bases, order independence) is not under contract beyond the recorded finding; it is covered only by the BOUNDED stand-in bounded#media_worklist_equals_own_plus_selected_bases (never counted as proved)",
+    "_get_comp_cls_media's worklist is proved outside the region of F-C16 (contracts/c16b.py) with Django's Media merge as an opaque function; 'each file once, order consistent' at the level of file lists is covered only by the BOUNDED stand-in bounded#media_worklist_equals_own_plus_selected_bases (never counted as proved); termination of the worklist is not proved",
     "_resolve_media's contract is assumed (file-system resolution)",
     "django.forms.Media merging",
 ]
@@ -242,3 +242,5 @@ def _bounded_media(tier, repo):
 
 REG.bounded_check("bounded#media_worklist_equals_own_plus_selected_bases", P, _bounded_media,
                   note="the worklist of _get_comp_cls_media is not under contract: every hierarchy of 4 classes with own Media (outside F-C16) is built for real and .media compared with the property, in two access orders")
+
+import contracts.c16b  # noqa: E402,F401  (_get_comp_cls_media: the media worklist)
